@@ -325,3 +325,142 @@ async fn exec_inner(t: Trace, prop: &'static str) -> Outcome {
     out.vt_ms = rt::virtual_elapsed_ms();
     out
 }
+
+// ---------------------------------------------------------------------------------------------------------
+// Second directed scenario (C18's liveness clause): a peer that does not read asks for a reply of hundreds of
+// lines in one command; everybody else - readers and writers of the state - must still be answered.
+
+pub(crate) fn gen_big_reply(check: &str, run_seed: u64) -> Trace {
+    let mut r = Rng::new(run_seed ^ 0xB16);
+    let mut cfg = SimConfig::default();
+    cfg.operators.push(OperCfg { name: "root".into(), password: "rootpw".into(), mask: None });
+    let mut a: Vec<Action> = vec![];
+    for (i, n) in ["oper", "vic", "byst"].iter().enumerate() {
+        a.push(Action::Open { ip: format!("10.0.0.{}", i + 1) });
+        say(&mut a, i, &format!("NICK {}", n));
+        say(&mut a, i, &format!("USER u{} 0 * :Real {}", i, n));
+    }
+    say(&mut a, B, "JOIN #s");
+    say(&mut a, V, "JOIN #s");
+    let window = [0usize, 0, 5, 50][r.below(4)];
+    a.push(Action::Window { c: V, n: window });
+    a.push(Action::Mark { m: "big".into() });
+    let n = r.range(120, 400);
+    let item = ["zz", "#q", "byst", "vic"][r.below(4)];
+    let list = std::iter::repeat(item).take(std::cmp::min(n, 1800 / (item.len() + 1))).collect::<Vec<_>>().join(",");
+    let big = match r.below(4) {
+        0 => format!("WHOIS {}", list),
+        1 => format!("NAMES {}", list),
+        2 => format!("PRIVMSG {} :to many", list),
+        _ => format!("WHO {}", "zz"),
+    };
+    // one or several such commands in a row
+    for _ in 0..r.range(1, 3) {
+        say(&mut a, V, &big);
+    }
+    a.push(Action::Mark { m: "others".into() });
+    say(&mut a, B, "JOIN #t");
+    say(&mut a, O, "PING alive-oper");
+    say(&mut a, B, "PING alive-byst");
+    say(&mut a, O, "NICK opernew");
+    say(&mut a, B, "PRIVMSG opernew :hello oper");
+    a.push(Action::Mark { m: "victim_end".into() });
+    a.push(Action::Reset { c: V });
+    a.push(Action::Settle);
+    say(&mut a, O, "PING after-end");
+    let mut params = HashMap::new();
+    params.insert("scenario".to_string(), "slow_big_reply".to_string());
+    Trace { check: check.into(), seed: 0, run_seed, config: cfg, params, actions: a }
+}
+
+pub(crate) fn exec_big_reply(trace: &Trace, prop: &'static str) -> Outcome {
+    let t = trace.clone();
+    match rt::run_sim_timeout(trace.run_seed, 60, move || async move { exec_big_inner(t, prop).await }) {
+        Ok(o) => o,
+        Err(e) if e == "HANG" => {
+            let mut o = Outcome::new();
+            o.violation = Some(Violation { property: prop.into(), class: "liveness".into(), sig: "hang".into(), step: usize::MAX, msg: "simulated run did not finish within 60 s wall".into() });
+            o
+        }
+        Err(e) => Outcome::harness_error(e),
+    }
+}
+
+async fn exec_big_inner(t: Trace, prop: &'static str) -> Outcome {
+    let mut out = Outcome::new();
+    let mut w = World::new(&t.config).await;
+    let mk = |sig: &str, step: usize, msg: String| Violation { property: prop.into(), class: "liveness".into(), sig: sig.into(), step, msg };
+    let mut viol: Option<Violation> = None;
+    let mut phase = "setup".to_string();
+    let mut step = 0usize;
+    let mut reached_others = false;
+    // (connection, what it sent, what must come back) - checked at the barrier that follows the command
+    let mut pending: Option<(usize, String)> = None;
+    for a in &t.actions {
+        match a {
+            Action::Mark { m } => {
+                phase = m.clone();
+                if m == "others" {
+                    reached_others = true;
+                }
+            }
+            Action::Send { c, d } => {
+                let s = String::from_utf8_lossy(&unesc(d)).trim_end().to_string();
+                if phase == "others" || phase == "victim_end" {
+                    pending = Some((*c, s));
+                }
+                w.apply(a).await;
+            }
+            Action::Settle => {
+                w.apply(a).await;
+                let obs = w.observe();
+                step += 1;
+                for (tid, msg) in rt::take_panic_log() {
+                    if tid.and_then(|id| w.conn_of_task(id)).is_some() {
+                        let loc = msg.rsplit(" @ ").next().unwrap_or("?").replace(env!("VERIF_REPO_PATH"), "");
+                        viol = Some(mk(&format!("panic@{}", loc.trim_start_matches('/')), step, format!("connection handler panicked in phase {}: {}", phase, msg)));
+                    } else {
+                        out.helper_panics.push(msg);
+                    }
+                }
+                if let Some((c, sent)) = pending.take() {
+                    let lines: Vec<String> = obs.get(c).map(|o| o.lines.clone()).unwrap_or_default();
+                    // served = the server reacted at all (whatever it said: a shortened replay may have lost the registration);
+                    // a server that is stuck behind the slow peer says nothing
+                    let answered = !lines.is_empty()
+                        || (sent.starts_with("PRIVMSG opernew") && obs.get(O).map_or(false, |o| o.lines.iter().any(|l| irc::parse(l).map_or(false, |p| p.cmd == "PRIVMSG"))));
+                    if !answered && viol.is_none() {
+                        viol = Some(mk(
+                            "unanswered_while_slow_peer_pending",
+                            step,
+                            format!("connection {} sent {:?} and was not served while a peer that does not read has a long reply pending (phase {}); it received {:?}", c, sent, phase, lines),
+                        ));
+                    } else if answered {
+                        out.count("served_beside_slow_peer", 1);
+                    }
+                }
+                if viol.is_some() {
+                    break;
+                }
+            }
+            other => {
+                w.apply(other).await;
+            }
+        }
+    }
+    if viol.is_none() && reached_others {
+        out.count("slow_big_reply.ok", 1);
+    }
+    out.cov_keys.push(hash_key(&["slow_big_reply", &t.actions.len().to_string()]));
+    out.tails = w.conns.iter().map(|c| c.all_lines.iter().rev().take(6).rev().cloned().collect()).collect();
+    for (k, v) in w.net_counters() {
+        if k != "net.reads" && k != "net.writes" {
+            out.count(k, v);
+        }
+    }
+    out.violation = viol;
+    out.digest = w.digest;
+    out.steps = w.steps;
+    out.vt_ms = rt::virtual_elapsed_ms();
+    out
+}
